@@ -150,7 +150,7 @@ def r1_leaves(program, rep):
     detail = []
     if okc:
         want_cores = ("get", ("get", P("allocations"), SINK, ANY),
-                      P("core_resource"), ("const", None))
+                      P("core_resource"))
         okc = match(want_cores, plain(CORES)) is not None
         cases = [
             ("endpoint", [(mk_cmp("In", SINK, RTE), True)],
